@@ -128,6 +128,7 @@ Definition in_domain (c : rcase) : bool :=
   | OpMove src dest =>
       move_domain (c_variant c) (c_world c) src dest (c_mod c)
       || match dest with [] => root_domain (c_variant c) (c_world c) src (c_mod c) | _ => false end
+      || bystander_domain (c_world c) src dest (c_mod c)
   | OpRename src newn => rename_domain (c_world c) src newn (c_mod c)
   | OpToPackage src => to_package_domain (c_world c) src (c_mod c)
   end.
@@ -167,7 +168,8 @@ Definition py_agrees (w : world) (m : pymod) (d : dotted) (p : option obj) : boo
           4 Python after differs from resolve_ref on rope's output
           5 the harness' resolver differs from resolve_ref on rope's output
           6 inside the theorem's domain, yet a reference does not reach the moved object (model)
-          7 inside the theorem's domain, yet CPython says a reference does not reach the moved object *)
+          7 inside the theorem's domain, yet CPython says a reference does not reach the moved object
+          8 inside the theorem's domain, yet an import statement of the rewritten module is stale (C05_all_import) *)
 Definition run_rcase (c : rcase) : N :=
   let w := c_world c in
   let w' := world_after c in
@@ -196,9 +198,31 @@ Definition run_rcase (c : rcase) : N :=
           else if negb (zip_pre (fun e a => match e with Some _ => obj_opt_eqb e a | None => true end)
                                 expect (c_py_after c))
           then 7%N
+          else if imports_ok w (c_mod c) && negb (imports_ok w' m') then 8%N
           else 0%N
         else 0%N
     end.
+
+(* does the spec, applied to rope's own output, say that some reference no longer reaches its object (or that
+   the module no longer imports)?  A failure observed by CPython is attributed to a known finding only when
+   this prediction holds and rope's output is the model's. *)
+Definition predicts_break (c : rcase) : bool :=
+  match c_out c with
+  | None => false
+  | Some m' =>
+      let w := c_world c in
+      let w' := world_after c in
+      let before := map (resolve_ref w (c_mod c)) (m_refs (c_mod c)) in
+      let after := map (resolve_ref w' m') (m_refs m') in
+      negb (Nat.eqb (length before) (length after))
+      || existsb (fun pr : option obj * option obj =>
+                    match fst pr with
+                    | Some o => negb (obj_opt_eqb (snd pr) (Some (obj_after c o)))
+                    | None => false
+                    end) (combine before after)
+      || (imports_ok w (c_mod c) && negb (imports_ok w' m'))
+  end.
+Definition predictions (cs : list rcase) : list N := map (fun c => if predicts_break c then 1%N else 0%N) cs.
 
 Fixpoint mismatches_from {A} (run : A -> N) (i : N) (cs : list A) : list (N * N) :=
   match cs with
